@@ -12,7 +12,7 @@ def cfgs_for(family, tier):
     base = dict(cache='off', cache_indexes=True, fsync=False, confirmation='wait')
     def c(thr, seg, **kw):
         d = dict(base); d.update(save_threshold=thr, segment_bytes=seg * MSG); d.update(kw); return d
-    if family in ('layout', 'layout_enc', 'dedup', 'offsets', 'grpoffsets'):
+    if family in ('layout', 'layout_enc', 'dedup', 'offsets', 'grpoffsets', 'autocommit'):
         m = [c(1000, 0), c(2, 0), c(1, 2), c(3, 4, cache_indexes=False), c(2, 3, cache='large'),
              c(1000, 2, fsync=True), c(1, 0, cache='large', cache_indexes=False), c(3, 2),
              # a cache of a few messages: System::append_messages evicts while the scenario runs
@@ -49,6 +49,11 @@ GEN = {
                                    MaxBatch=1, MaxNow=0, ExpirySet='{0}', Threshold=1000, SegCap=1000,
                                    Ops='{"append","store","group","restart"}'),
                        parts=1, whos=['c1', 'g1', 'h1'], expiry=0),
+    # auto-commit of polls by offset (forwards and BACKWARDS), small alphabet so that the path cover is complete (seeded change C07_6)
+    'autocommit': dict(consts=dict(NParts=1, KeySet='{"c1"}', GroupKeys='{}', DedupOn='FALSE', IdSet='{0}', MaxLen=2,
+                                   MaxBatch=2, MaxNow=0, ExpirySet='{0}', Threshold=1000, SegCap=1000,
+                                   Ops='{"append","poll_auto","restart"}'),
+                       parts=1, whos=['c1'], expiry=0),
     'offsets': dict(consts=dict(NParts=2, KeySet='{"c1","c2","g1"}', GroupKeys='{"g1"}', DedupOn='FALSE', IdSet='{0}', MaxLen=3,
                                 MaxBatch=2, MaxNow=0, ExpirySet='{0}', Threshold=1000, SegCap=1000,
                                 Ops='{"append","store","del_offset","poll_next","purge","restart","group"}'),
@@ -64,7 +69,7 @@ def mc_family(family, tier, wd):
     """Exhaustive TLC run of the bounded instance of `family` (bigger constants in the thorough tier)."""
     g = GEN[family]
     consts = dict(g['consts'])
-    consts['MaxOps'] = {'layout': 7, 'retention': 8, 'dedup': 5, 'offsets': 5, 'grpoffsets': 6, 'layout_enc': 7}[family] + (2 if tier == 'thorough' else 0)
+    consts['MaxOps'] = {'layout': 7, 'retention': 8, 'dedup': 5, 'offsets': 5, 'grpoffsets': 6, 'layout_enc': 7, 'autocommit': 6}[family] + (2 if tier == 'thorough' else 0)
     if tier == 'thorough':
         consts['MaxLen'] = consts['MaxLen'] + 2
     cfg = os.path.join(wd, f'MC_{family}.cfg')
@@ -82,7 +87,7 @@ def gen_scripts(family, tier, wd, seed, rnd):
     out = []
     # (the number of scripts grows by a factor of 10-60 per level: the thorough tier deepens only where that stays feasible and
     #  otherwise widens the batches and multiplies the simulated walks and configurations)
-    depth = {'layout': 4, 'retention': 5, 'dedup': 3, 'offsets': 3, 'grpoffsets': 4, 'layout_enc': 4}[family] + (1 if tier == 'thorough' and family in ('layout', 'layout_enc') else 0)
+    depth = {'layout': 4, 'retention': 5, 'dedup': 3, 'offsets': 3, 'grpoffsets': 4, 'layout_enc': 4, 'autocommit': 3}[family] + (1 if tier == 'thorough' and family in ('layout', 'layout_enc') else 0)
     consts = dict(g['consts']); consts['MaxOps'] = depth
     if family == 'dedup' and tier == 'quick':
         consts['MaxBatch'] = 2     # 3 ids x batches <= 3 gives 39 sends per step; the walks below keep batches of 3
@@ -94,7 +99,7 @@ def gen_scripts(family, tier, wd, seed, rnd):
     paths = [s for s in paths if len(s) >= 2]
     # simulated walks (deeper), guards respected
     consts2 = dict(g['consts']); consts2['MaxOps'] = 14 if tier == 'quick' else 24
-    if family not in ('offsets', 'grpoffsets'):
+    if family not in ('offsets', 'grpoffsets', 'autocommit'):
         consts2['MaxLen'] = 10 if tier == 'quick' else 14
     cfg2 = os.path.join(wd, f'Sim_{family}.cfg')
     write_cfg(cfg2, 'MCSpec', consts2, invariants=['EmitScript'], constraint='Bounded')
@@ -173,7 +178,7 @@ def build_scenarios(families, tier, wd, seed):
         paths, walks = gen_scripts(fam, tier, wd, seed, rnd)
         cfgs = cfgs_for(fam, tier)
         budget = {'quick': 150, 'thorough': 1500}[tier]   # scripts per family (sampled from the path cover), each under `per` configurations
-        if fam == 'grpoffsets':
+        if fam in ('grpoffsets', 'autocommit'):
             budget = max(budget, 700)
         if len(paths) > budget:
             paths = rnd.sample(paths, budget)
@@ -225,7 +230,7 @@ FAMILIES = {
     'C01': ['layout', 'retention', 'dedup'],
     'C02': ['layout', 'retention'],
     'C03': ['layout', 'offsets', 'retention', 'dedup'],
-    'C07': ['offsets', 'grpoffsets'],
+    'C07': ['offsets', 'grpoffsets', 'autocommit'],
     'C14': ['retention'],
     'C18': ['dedup'],
     'C19': ['layout_enc'],
